@@ -80,6 +80,13 @@ def gen_vocab_isa(rnd):
     mn = [m for m in mn if not (m.lower() in lower or lower.add(m.lower()))]
     n_m = rnd.choice([0, 0, 1, 2, 3])
     macros = [m for m in rnd.sample(MACRO_POOL, n_m) if m.lower() not in lower]
+    if len(mn) % 5 == 2:
+        # a macro whose name is the dotted stem of a native mnemonic (macro `st`, instruction `st.w`): the mirror image
+        # of the pairing behind the open finding, which the unchanged generators classify correctly
+        stem, dotted = [('st', 'st.w'), ('mov', 'mov.w'), ('ld', 'ld.b'), ('a', 'a.b')][(len(mn) + nreg) % 4]
+        if stem not in regs:
+            mn = [m for m in mn if m.lower() not in (stem, dotted)] + [dotted]
+            macros = [m for m in macros if m.lower() not in (stem, dotted)] + [stem]
     general = {'address_size': 16, 'endian': 'big', 'registers': regs, 'min_version': '0.3.0'}
     if rnd.random() < 0.7:
         general['identifier'] = {'name': rnd.choice(['tiny', 'sim-isa', 'my_cpu', 'z 80', '.dot8', 'q"t', 'b\\s', "o'k"]),
@@ -727,7 +734,10 @@ def cross_class_dotted_prefix(word, scope_got, text_got, vocab):
     if not t or not w.startswith(t + '.'):
         return False
     own = [k for k, ws in vocab.items() if w in [x.lower() for x in ws]]
-    return t in [x.lower() for x in vocab[other]] and other not in own
+    # only the direction that fails on the unchanged tree: a MACRO name claimed by the INSTRUCTIONS rule (which comes
+    # first in both grammars). The mirror image (macro `st`, instruction `st.w`) is classified correctly there, and a
+    # change that breaks it must be reported (seeded change C20-u3)
+    return other == 'instructions' and own == ['macros'] and t in [x.lower() for x in vocab[other]]
 
 
 def attributable(case, vclass, finding):
@@ -738,10 +748,7 @@ def attributable(case, vclass, finding):
     io = vclass.startswith('IO-')       # the same classes when found under a (survived) injected fault
     if io:
         vclass = vclass[3:]
-    if vclass not in ('CL-macro-not-classified-in-full', 'CL-instruction-not-classified-in-full',
-                      'CL-register-not-classified-in-full',
-                      'CL-macro-after-another-operation-not-classified-in-full',
-                      'CL-instruction-after-another-operation-not-classified-in-full'):
+    if vclass not in ('CL-macro-not-classified-in-full', 'CL-macro-after-another-operation-not-classified-in-full'):
         return False
     isa = effective_isa(case)
     vocab = vocab_of(isa)
